@@ -58,8 +58,12 @@ def gen_case(rng):
 
         def has_invs_upto(j):
             return any(chain[i]["invs"] for i in range(j + 1))
-        ok = [j for j in range(n)
-              if has_init_upto(j) or not has_invs_upto(j) or not any(cd["init"] is not None for cd in chain)]
+        def wrapped_new_below_init(j):
+            # some class q at or above j has invariants and no __init__ at or below it (its __new__ gets the checks)
+            # while a class further down has an __init__
+            return any(has_invs_upto(q) and not has_init_upto(q) and any(chain[p]["init"] is not None for p in range(q + 1, n))
+                       for q in range(j, n))
+        ok = [j for j in range(n) if not wrapped_new_below_init(j)]
         if ok:
             case["new_at"] = rng.choice(ok)
     return case
